@@ -93,10 +93,17 @@ impl SdJwtVc {
   where
     R: Resolver<Url, Vec<u8>>,
   {
-    let metadata_url = {
+    let metadata_url: Url = {
       let origin = self.claims().iss.origin().ascii_serialization();
       let path = self.claims().iss.path();
-      format!("{origin}{WELL_KNOWN_VC_ISSUER}{path}").parse().unwrap()
+      // An issuer whose URL has an opaque origin (e.g. `did:`, `urn:`) has no well-known location.
+      format!("{origin}{WELL_KNOWN_VC_ISSUER}{path}")
+        .parse()
+        .map_err(|_| Error::InvalidClaimValue {
+          name: "iss",
+          expected: "URL with an HTTP(S) origin",
+          found: Value::String(self.claims().iss.to_string()),
+        })?
     };
     match resolver.resolve(&metadata_url).await {
       Err(ResolverErr::NotFound(_)) => Ok(None),
